@@ -185,6 +185,10 @@ SetLen(l) ==
           /\ r.ok                                               \* (the model never produces a failing rewind)
           /\ acc' = r.acc /\ store' = r.st /\ pdata' = r.acc /\ items' = RTrunc(items, l) /\ pitems' = items'
           /\ Log([op |-> "setlen", v |-> 0, n |-> 0, l |-> l, res |-> "ok"])
+\* GetMerkleHeader: a read; the header (carried by every record) is the one of the CURRENT sequence, whatever was read, rewound
+\* or re-added before.  It is an action of its own so that histories exist in which no header is read at the lengths in between.
+HeaderRead == /\ UNCHANGED <<items, acc, store, pdata, pitems>>
+              /\ Log([op |-> "header", v |-> 0, n |-> 0, l |-> 0, res |-> "ok"])
 Finalize == /\ store' = FinalizeStore(acc, store)
             /\ UNCHANGED <<items, acc, pdata, pitems>>
             /\ Log([op |-> "finalize", v |-> 0, n |-> 0, l |-> 0, res |-> "ok"])
@@ -244,6 +248,7 @@ KeySample(len) == {0, len - 1, len \div 2, ((len - 1) \div A) * A, (len \div A) 
 Next == \/ \E v \in Vals, n \in AddSizes : Can /\ Add(v, n)
         \/ \E l \in RewindPoints(acc.len) : Can /\ SetLen(l)
         \/ Can /\ Finalize
+        \/ Can /\ HistOn /\ HeaderRead
         \/ Can /\ Extras /\ Reopen
         \/ \E k \in KeySample(acc.len) : Can /\ Extras /\ HistOn /\ Check(k)
         \/ Can /\ Extras /\ HistOn /\ SyncAll
